@@ -803,17 +803,17 @@ def Array(
         @classmethod
         def encode(cls, values: List[Any], length: Optional[int] = None) -> bytes:
             _length = length or cls.length
-            if isinstance(_length, int):
-                if len(values) < _length:
-                    raise DataError(
-                        f"Not enough values to encode array of {cls.element_type}[{_length}]"
-                    )
-
-                _len = _length
-            else:
-                _len = len(values)
-
             try:
+                if isinstance(_length, int):
+                    if len(values) < _length:
+                        raise DataError(
+                            f"Not enough values to encode array of {cls.element_type}[{_length}]"
+                        )
+
+                    _len = _length
+                else:
+                    _len = len(values)
+
                 if issubclass(cls.element_type, BitArrayType):
                     chunk_size = cls.element_type.size * 8
                     _len = len(values) // chunk_size
